@@ -55,13 +55,17 @@ pub struct CaseReport {
     pub nontrivial: bool,
     /// generator-distribution labels
     pub classes: Vec<&'static str>,
+    /// for checks that enumerate sub-cases (fault points) inside one generated case: the number
+    /// of sub-cases executed and the fingerprints of the non-trivial ones
+    pub extra_evals: u64,
+    pub extra_nontrivial: Vec<u64>,
 }
 
 impl CaseReport {
     pub fn new(nontrivial: bool) -> Self {
         CaseReport {
             nontrivial,
-            classes: vec![],
+            ..Default::default()
         }
     }
     pub fn class(&mut self, c: &'static str) {
@@ -152,7 +156,7 @@ struct EvState {
     notes: Vec<String>,
 }
 
-fn hash_of<T: Hash>(t: &T) -> u64 {
+pub fn hash_of<T: Hash>(t: &T) -> u64 {
     let mut h = std::collections::hash_map::DefaultHasher::new();
     t.hash(&mut h);
     h.finish()
@@ -259,9 +263,12 @@ impl Engine {
     }
 
     fn record_pass(&self, st: &mut EvState, fp: u64, rep: &CaseReport) {
-        st.evaluations += 1;
+        st.evaluations += 1 + rep.extra_evals;
         if rep.nontrivial {
             st.nontrivial.insert(fp);
+        }
+        for x in &rep.extra_nontrivial {
+            st.nontrivial.insert(fp ^ x.wrapping_mul(0x9E37_79B9_7F4A_7C15));
         }
         for c in &rep.classes {
             *st.classes.entry(c.to_string()).or_insert(0) += 1;
